@@ -12,6 +12,7 @@
   * `not_linear_scalar_over_array`: `c / x` is NOT such a case.
 -/
 import PtProofs.DistributeLemmas
+import PtProofs.NoBroadcastLemmas
 import PtGen.Distribute
 namespace Pt
 
@@ -49,6 +50,21 @@ theorem distribute_sound_table (policy : Policy) (env : String → Arr Rat)
     (h : distribute policy tableCanDist t none = .ok t') :
     t'.denote env opq = t.denote env opq :=
   distribute_sound tableCanDist tableCanDist_linear policy env opq t t' hwf h
+
+/-! ## `rewrite_einsums_with_no_broadcasts` -/
+
+/-- `EinsumWithNoBroadcastsRewriter.map_einsum` on one einsum: every operand axis
+    whose length differs from the length of the einsum axis it is accessed with
+    (a broadcast-unit axis) is removed from the operand by indexing with 0
+    (`_squeeze_axes`) and from its access descriptor; the result is the same
+    array (same shape, same value at every index).  Hypotheses = pytato's own
+    `assert`s on an `Einsum`. -/
+theorem noBroadcast_sound (descrs : List (List EAxis)) (nout : Nat) (args : List (Arr Rat))
+    (hlen : descrs.length = args.length)
+    (hwf : ∀ p ∈ descrs.zip args, p.1.length = p.2.shape.length) :
+    Spec.einsum (Spec.noBroadcastEinsum descrs args).1 nout (Spec.noBroadcastEinsum descrs args).2
+      = Spec.einsum descrs nout args :=
+  Spec.noBroadcastEinsum_sound descrs nout args hlen hwf
 
 /-! ## `c / x` must not be distributed -/
 
@@ -110,6 +126,20 @@ example : (c06T.denote c06Env c06Opq).toList = [(609 : Rat) / 2, 696] := by deci
 example : (Spec.einsum [[.elem 0, .red 0], [.red 0]] 1 [c06A, Arr.add c06U c06U]).toList
     = (Arr.add (Spec.einsum [[.elem 0, .red 0], [.red 0]] 1 [c06A, c06U])
         (Spec.einsum [[.elem 0, .red 0], [.red 0]] 1 [c06A, c06U])).toList := by decide +kernel
+/-- no-broadcast rewrite of `einsum("ij,j,ij->i", A, u, w)` with `u : (1,)`, `w : (2,1)`:
+    descriptors become `ij`, ``, `i`; the value is unchanged -/
+def c06W : Arr Rat := Arr.ofList [2, 1] [3, 5] 0
+example : ([[EAxis.elem 0, .red 0], [.red 0], [.elem 0, .red 0]] : List (List EAxis)).length
+      = [c06A, c06U, c06W].length
+    ∧ (∀ p ∈ ([[EAxis.elem 0, .red 0], [.red 0], [.elem 0, .red 0]] : List (List EAxis)).zip
+        [c06A, c06U, c06W], p.1.length = p.2.shape.length) := by decide
+example : (Spec.noBroadcastEinsum [[.elem 0, .red 0], [.red 0], [.elem 0, .red 0]]
+      [c06A, c06U, c06W]).1 = [[.elem 0, .red 0], [], [.elem 0]]
+    ∧ (Spec.noBroadcastEinsum [[.elem 0, .red 0], [.red 0], [.elem 0, .red 0]]
+      [c06A, c06U, c06W]).2.map (·.shape) = [[2, 3], [], [2]] := by decide
+example : (Spec.einsum [[.elem 0, .red 0], [.red 0], [.elem 0, .red 0]] 1
+    [c06A, c06U, c06W]).toList = [126, 525] := by decide +kernel
+
 /-- the error path: a `DoDistribute` einsum under a distribution context -/
 example : distribute (fun _ => some 0) c06Can
     (.einsum [[.red 0], [.red 0]] 0 [.einsum [[.elem 0, .red 0], [.red 0]] 1 [.leaf "A", .leaf "x"],
